@@ -1,3 +1,12 @@
+pub mod lsync {
+    pub use lightning_signer::prelude::{Arc, Mutex};
+}
+pub mod chanfsm;
 pub mod ev;
 pub mod kvvmc;
+pub mod monitors;
+pub mod props;
+pub mod secretstore;
 pub mod velocity;
+pub mod vmc;
+pub mod world;
